@@ -373,7 +373,9 @@ namespace detail
 	{
 		GLM_STATIC_ASSERT(std::numeric_limits<T>::is_integer, "'findMSB' only accept integer values");
 
-		return detail::compute_findMSB_vec<L, T, Q, static_cast<int>(sizeof(T) * 8)>::call(v);
+		// GLSL: for negative values the result is the position of the most significant 0 bit
+		return detail::compute_findMSB_vec<L, T, Q, static_cast<int>(sizeof(T) * 8)>::call(
+			std::numeric_limits<T>::is_signed ? (v ^ (v >> static_cast<T>(sizeof(T) * 8 - 1))) : v);
 	}
 }//namespace glm
 
